@@ -104,10 +104,19 @@ func newClient(s *Swarm, remoteAddr Addr, netConn net.Conn) (*Conn, error) {
 		return nil, errors.New("pubkey not set after connection")
 	}
 
+	// the local end of an outbound connection: what the peer sees as this connection's remote address
+	laddr := netConn.LocalAddr().(*net.TCPAddr)
+	lip, _ := netip.AddrFromSlice(laddr.IP)
+
 	c := &Conn{
 		swarm:      s,
 		remoteAddr: remoteAddr,
-		shutdown:   make(chan struct{}),
+		localAddr: Addr{
+			Fingerprint: ssh.FingerprintSHA256(s.signer.PublicKey()),
+			IP:          lip,
+			Port:        uint16(laddr.Port),
+		},
+		shutdown: make(chan struct{}),
 
 		newChanReqs: newChans,
 		reqs:        reqs,
